@@ -684,17 +684,17 @@ def xnWorld : World := { job := xnJob, env := ⟨10, some xnPod, some xnResv, 0,
 /-- the start world satisfies the invariant (no node recorded) -/
 example : nodeRecorded xnWorld.job.status = false := by decide
 example : NodeInv xnWorld := by decide
-/-- an admissible history with a failing Evict call (bit 1), a pod replaced on the SAME node after the node has
+/-- an admissible history with a failing Evict call (bit 1), a pod status update on the SAME node after the node has
     been recorded, a reservation status change on the same node, and a retry: two evictor calls -/
-example : restricted xnWorld [.recon 2, .pod (some ⟨2, 3, 2, 0, false⟩),
+example : restricted xnWorld [.recon 2, .pod (some ⟨1, 3, 2, 0, false⟩),
     .resv (some { xnResv with msg := 7 }), .tick 5, .recon 0] = true := by decide
-example : (run xnWorld [.recon 2, .pod (some ⟨2, 3, 2, 0, false⟩),
+example : (run xnWorld [.recon 2, .pod (some ⟨1, 3, 2, 0, false⟩),
     .resv (some { xnResv with msg := 7 }), .tick 5, .recon 0]).2.length = 2 := by decide
 /-- the node has indeed been recorded by the first reconcile of that history -/
 example : nodeRecorded (run xnWorld [.recon 2]).1.job.status = true := by decide
 /-- before the node is recorded any event is admissible -/
-example : restricted xnWorld [.pod (some ⟨2, 1, 2, 0, false⟩), .recon 0] = true := by decide
-example : (run xnWorld [.pod (some ⟨2, 1, 2, 0, false⟩), .recon 0]).2 = [] := by decide
+example : restricted xnWorld [.pod (some ⟨1, 1, 2, 0, false⟩), .recon 0] = true := by decide
+example : (run xnWorld [.pod (some ⟨1, 1, 2, 0, false⟩), .recon 0]).2 = [] := by decide
 
 def xnCexWorld : World :=
   { job := { spec := ⟨false, false, 0, true, 1, true, false, 0⟩,
@@ -704,10 +704,10 @@ def xnCexWorld : World :=
 /-- the two counterexample histories of Props/C17.lean are excluded by `restricted` (and only by it: their start
     worlds satisfy the invariant) -/
 example : nodeRecorded xnCexWorld.job.status = false := by decide
-example : restricted xnCexWorld [.recon 4, .pod (some ⟨2, 1, 2, 0, false⟩), .recon 0] = false := by decide
+example : restricted xnCexWorld [.recon 4, .resv (some ⟨RPh.available, 3, 1, 0, false, 0, false, true, false⟩), .recon 0] = false := by decide
 example : restricted { xnCexWorld with env := { xnCexWorld.env with
-      resv := some ⟨RPh.available, 1, 1, 0, false, 0, true, true, false⟩ } }
-    [.recon 0, .pod (some ⟨2, 1, 2, 0, false⟩),
+      pod := some ⟨1, 0, 1, 0, true⟩, resv := some ⟨RPh.available, 1, 1, 0, false, 0, true, true, false⟩ } }
+    [.recon 0, .pod (some ⟨1, 1, 2, 0, false⟩),
      .resv (some ⟨RPh.available, 1, 1, 0, false, 0, false, true, false⟩), .recon 0] = false := by decide
 
 end KoordVerif.C17
